@@ -72,6 +72,13 @@ def run(ctx):
                     ph = gen_phases(rng, n, pat)
                     cases.append({"fn": "roundtrip", "phases": [hexf(x) for x in ph], "pattern": pat, "timeout": 300})
     if ctx.replay is None:
+        # end phases NEAR (not at) a multiple of pi/2: a leaf that tidies "almost trivial" angles moves them by up to 1e-6, far above 1e-8
+        for n in ((1, 2, 4, 7, 10, 16) if quick else range(1, 33)):
+            for _ in range(2):
+                inner = [rng.uniform(0.05, 0.4) * rng.choice([-1, 1]) for _ in range(n - 1)]
+                e0 = rng.choice([0.0, math.pi / 2, -math.pi / 2, math.pi, -math.pi]) + rng.choice([4e-7, -3e-7, 1e-7, -6e-8, 8e-7])
+                e1 = rng.choice([0.0, math.pi / 2, -math.pi / 2, rng.uniform(-3, 3)]) + rng.choice([5e-7, -2e-7, 0.0, 9e-8])
+                cases.append({"fn": "roundtrip", "phases": [hexf(x) for x in [e0] + inner + [e1]], "pattern": "near-special-ends", "timeout": 300})
         # integer-typed phase vectors (Python ints / int ndarray) with entries beyond +-pi
         for n in ((2, 4, 7) if quick else range(1, 13)):
             for cont in ("list", "array"):
